@@ -1,6 +1,6 @@
 """C08 driver: diatonic harmony."""
 from mingus.core import chords, progressions
-from .common import call, nm, txt, names, Shape, listof, integer
+from .common import again, AGAIN, call, nm, txt, names, Shape, listof, integer
 
 FUNCS = ["tonic", "supertonic", "mediant", "subdominant", "dominant", "submediant", "subtonic"]
 NUM = ["I", "II", "III", "IV", "V", "VI", "VII"]
@@ -31,6 +31,10 @@ def run_case(c):
                               lambda: progressions.to_chords(a, k), listof(names)))
             if d == 1:
                 R.append(call("table", {"k": list(k), "seventh": sv}, lambda: (chords.sevenths if sv else chords.triads)(k), listof(names)))
+                R.append(call("table", {"k": list(k), "seventh": sv, "asked": AGAIN}, again(lambda: (chords.sevenths if sv else chords.triads)(k)), listof(names)))
+            R.append(call("function_name", dict(base, name=nmf, alias=False, asked=AGAIN), again(lambda: getattr(chords, nmf)(k)), names))
+            R.append(call("to_chords", {"k": list(k), "d": d, "acc": 0, "suffix": sfx, "prog": list(NUM[d - 1] + sfx), "asked": AGAIN},
+                          again(lambda: progressions.to_chords(NUM[d - 1] + sfx, k)), listof(names)))
         if d == 1:
             # the same questions in a freshly forked interpreter, sevenths asked before triads (nothing may depend on the order)
             import subprocess, sys, os, json
